@@ -62,7 +62,7 @@ def main(pid):
     j = 0
     for _ in range(reps):
         for h in hists:
-            items.append({"hist": h, "bind": {"A": j % n, "B": (j + 1) % n, "C": (j + 2) % n}, "opt": (j // 3) % 2})
+            items.append({"hist": h, "bind": {"A": j % n, "B": (j + 1) % n, "C": (j + 2) % n}, "opt": (j // 3) % 5})
             j += 3
     seeds = [0, 1, 2, 3, 4, 5, 11 + vlib.seed(), 97 + vlib.seed()] + (list(range(100, 124)) if thorough else [])
     from concurrent.futures import ThreadPoolExecutor
@@ -134,7 +134,7 @@ def main(pid):
         if key in seen:
             continue
         seen.add(key)
-        vd.violation(cl, {"text": corpus[rc["text"]], "remove_ambiguous": bool(rc["opt"]), "seed": rc["seed"],
+        vd.violation(cl, {"text": corpus[rc["text"]], "option_set": ["plain", "remove_ambiguous", "plain + clean_steps", "markup mode", "markup mode, steps without html"][rc["opt"]], "seed": rc["seed"],
                           "thread": rc["th"], "history": items[rc["hist"]]["hist"] if rc["hist"] >= 0 else rc["th"],
                           "baseline_seed0": base[rc["text"]][rc["opt"]][:1500]},
                      {"clause": cl, "tie_text": corpus[rc["text"]] in tie_texts},
